@@ -741,6 +741,34 @@ func (tx *Tx) prefixSearchScanByHintBPTSparseIdx(bucket string, prefix []byte, r
 	return processEntriesScanOnDisk(es), off, nil
 }
 
+// pageEntries applies offsetNum and limitNum to all, the ascending live keys with the scanned
+// prefix, the way the RAM index modes do: the first offsetNum keys are skipped, then only keys
+// whose remainder matches rgx (when not nil) count, and at most limitNum of them are kept
+// (all of them for ScanNoLimit, none for any other limitNum <= 0).
+func pageEntries(all Entries, prefix []byte, rgx *regexp.Regexp, offsetNum int, limitNum int, notFound error) (Entries, int, error) {
+	off := offsetNum
+	if off < 0 {
+		off = 0
+	}
+	if off > len(all) {
+		off = len(all)
+	}
+	var es Entries
+	for _, e := range all[off:] {
+		if limitNum != ScanNoLimit && len(es) >= limitNum {
+			break
+		}
+		if rgx != nil && !rgx.Match(bytes.TrimPrefix(e.Key, prefix)) {
+			continue
+		}
+		es = append(es, e)
+	}
+	if len(es) == 0 {
+		return nil, off, notFound
+	}
+	return es, off, nil
+}
+
 // PrefixScan iterates over a key prefix at given bucket, prefix and limitNum.
 // LimitNum will limit the number of entries return.
 func (tx *Tx) PrefixScan(bucket string, prefix []byte, offsetNum int, limitNum int) (es Entries, off int, err error) {
@@ -750,7 +778,13 @@ func (tx *Tx) PrefixScan(bucket string, prefix []byte, offsetNum int, limitNum i
 	}
 
 	if tx.db.opt.EntryIdxMode == HintBPTSparseIdxMode {
-		return tx.prefixScanByHintBPTSparseIdx(bucket, prefix, offsetNum, limitNum)
+		// offset and limit refer to the merged, ascending sequence of live keys, which the
+		// per-segment scans cannot know: collect every live prefixed key, then page
+		all, _, err := tx.prefixScanByHintBPTSparseIdx(bucket, prefix, 0, ScanNoLimit)
+		if err != nil {
+			return nil, 0, err
+		}
+		return pageEntries(all, prefix, nil, offsetNum, limitNum, ErrPrefixScan)
 	}
 
 	if idx, ok := tx.db.BPTreeIdx[bucket]; ok {
@@ -786,7 +820,15 @@ func (tx *Tx) PrefixSearchScan(bucket string, prefix []byte, reg string, offsetN
 	}
 
 	if tx.db.opt.EntryIdxMode == HintBPTSparseIdxMode {
-		return tx.prefixSearchScanByHintBPTSparseIdx(bucket, prefix, reg, offsetNum, limitNum)
+		rgx, err := regexp.Compile(reg)
+		if err != nil {
+			return nil, 0, ErrPrefixSearchScan
+		}
+		all, _, err := tx.prefixScanByHintBPTSparseIdx(bucket, prefix, 0, ScanNoLimit)
+		if err != nil {
+			return nil, 0, ErrPrefixSearchScan
+		}
+		return pageEntries(all, prefix, rgx, offsetNum, limitNum, ErrPrefixSearchScan)
 	}
 
 	if idx, ok := tx.db.BPTreeIdx[bucket]; ok {
